@@ -4,6 +4,7 @@ package main
 // assumed models of dependency functions, and the (sequential) treatment of go/defer/channels.
 
 import (
+	"sync"
 	"fmt"
 	"go/token"
 	"go/types"
@@ -30,6 +31,9 @@ func (fr *Frame) call(instr ssa.Instruction, cc *ssa.CallCommon, st *State, reac
 		args = append(args, fr.val(a, st))
 	}
 	fr.callsiteChecks(cc, args, st, reach, pos)
+	if _, isBuiltin := cc.Value.(*ssa.Builtin); !isBuiltin {
+		fr.countCall(fr.callName(cc, pos), st)
+	}
 	if cc.IsInvoke() {
 		recv := fr.val(cc.Value, st)
 		return fr.invoke(cc, recv, args, resT, st, reach, pos)
@@ -169,6 +173,7 @@ type ModSet struct {
 	refs  map[string][]string // single references (cheap store-based havoc)
 	ghost map[string]bool
 	all   bool
+	callNames []int // calls(Name) counters the callee may change
 }
 
 func newModSet() *ModSet {
@@ -195,6 +200,20 @@ func (m *ModSet) names() []string {
 
 // applyHavoc replaces the modifiable locations by unknown values.
 func (c *FnCtx) applyHavoc(st, old *State, ms *ModSet, mayAlloc bool) {
+	if len(ms.callNames) > 0 {
+		c.ghostSorts["calls"] = "(Array Int Int)"
+		cur, ok := st.ghost["calls"]
+		if !ok {
+			cur = c.ghostInit("calls")
+		}
+		ng := c.smt.declareFresh("ghost.calls", "(Array Int Int)")
+		var keep []string
+		for _, id := range ms.callNames {
+			keep = append(keep, not(eq("i", fmt.Sprint(id))))
+		}
+		c.smt.assume(fmt.Sprintf("(forall ((i Int)) (! (=> %s (= (select %s i) (select %s i))) :pattern ((select %s i))))", and(keep...), ng, cur, ng), "callee frame: call counters")
+		st.ghost["calls"] = ng
+	}
 	if ms.all {
 		c.havocAllBut(st, ms.preserve, nil)
 		return
@@ -629,7 +648,7 @@ func (c *FnCtx) chanSend(fr *Frame, st *State, reach string, cht types.Type, ch 
 func (c *FnCtx) ghostInit(g string) string {
 	name := "ghost0." + sanitize(g)
 	c.smt.declare(name, c.ghostSorts[g])
-	if g == "sent" || g == "received" {
+	if g == "sent" || g == "received" || g == "calls" {
 		c.smt.assume(fmt.Sprintf("(forall ((c Int)) (! (= (select %s c) 0) :pattern ((select %s c))))", name, name), "ghost counter starts at 0")
 	}
 	return name
@@ -851,6 +870,13 @@ func (fr *Frame) callsiteChecks(cc *ssa.CallCommon, args []Val, st *State, reach
 		if sig.Recv() != nil && len(args) > 0 {
 			args = args[1:]
 		}
+	} else if _, isBuiltin := cc.Value.(*ssa.Builtin); !isBuiltin {
+		// a call through a function value goes by the name of the variable or field it is called through
+		name = fr.callName(cc, pos)
+		sig = cc.Signature()
+		if name == "" || name == "?" || sig == nil {
+			return
+		}
 	} else {
 		return
 	}
@@ -930,4 +956,56 @@ func (fr *Frame) callOrdinal(name string, pos token.Pos) int {
 		}
 	}
 	return k
+}
+
+// ---- ghost call counters: calls(Name) is the number of call instructions named Name executed so far by the function
+// under verification (helpers inlined into it included; calls made inside callees that are summarised by their
+// contract are not counted unless that contract says `modifies calls(Name)` and states the new count) -----------------
+
+var callNameIDs = map[string]int{}
+var callNameMu sync.Mutex
+
+func callNameID(n string) int {
+	callNameMu.Lock()
+	defer callNameMu.Unlock()
+	if id, ok := callNameIDs[n]; ok {
+		return id
+	}
+	id := len(callNameIDs) + 1
+	callNameIDs[n] = id
+	return id
+}
+
+// callName: the name a call goes by in contracts: the function or method name for static and interface calls, the
+// selected field or variable name for calls through function values (stream.Cb(errs) -> "Cb").
+func (fr *Frame) callName(cc *ssa.CallCommon, pos token.Pos) string {
+	if cc.IsInvoke() {
+		return cc.Method.Name()
+	}
+	if f := cc.StaticCallee(); f != nil {
+		return f.Name()
+	}
+	t := fr.c.eng.srcText(pos, "call")
+	if i := strings.Index(t, "("); i > 0 {
+		t = t[:i]
+	}
+	if i := strings.LastIndex(t, "."); i >= 0 {
+		t = t[i+1:]
+	}
+	return strings.TrimSpace(t)
+}
+
+func (fr *Frame) countCall(name string, st *State) {
+	c := fr.c
+	if name == "" || name == "?" {
+		return
+	}
+	g := "calls"
+	c.ghostSorts[g] = "(Array Int Int)"
+	cur, ok := st.ghost[g]
+	if !ok {
+		cur = c.ghostInit(g)
+	}
+	id := fmt.Sprint(callNameID(name))
+	st.ghost[g] = c.smt.define("calls", "(Array Int Int)", sto(cur, id, app("+", sel(cur, id), "1")))
 }
